@@ -55,6 +55,7 @@ Inductive action :=
 | SendPrecommit (i : nat) (r : N) (v : value)
 | Lock          (i : nat) (r : N) (b : N)       (* lock without (yet) precommitting *)
 | Unlock        (i : nat) (r' : N) (w : value)  (* polka for w at r' seen *)
+| SetLock       (i : nat) (l : option (N * N))  (* any lock change that is [lock_safe] *)
 | Decide        (i : nat) (r : N) (b : N)
 | ByzSend       (m : vote)
 | CrashRestart  (i : nat).
@@ -116,6 +117,29 @@ Section Protocol.
   Definition polka (sp : list vote) (r : N) (v : value) : bool := quorum sp r Prevote v.
   Definition qprecommit (sp : list vote) (r : N) (v : value) : bool := quorum sp r Precommit v.
 
+  (* The most general harmless change of a lock (used for restarts, where the
+     lock comes back from the lock WAL): for every block b that i has
+     precommitted, in round r0, either the new lock is on b since a round >= r0,
+     or the soup holds a polka for something else at a round >= r0. *)
+  Definition other_polka_from (sp : list vote) (r0 : N) (b : N) : bool :=
+    existsb (fun m => vtype_eqb (v_type m) Prevote && N.leb r0 (v_round m)
+                      && negb (value_eqb (v_value m) (Some b))
+                      && polka sp (v_round m) (v_value m)) sp.
+
+  Definition lock_covers (l : option (N * N)) (r0 : N) (b : N) : bool :=
+    match l with
+    | Some (lr, lb) => N.eqb lb b && N.leb r0 lr
+    | None => false
+    end.
+
+  Definition lock_safe (sp : list vote) (i : nat) (l : option (N * N)) : bool :=
+    forallb (fun m =>
+      negb (Nat.eqb (v_sender m) i && vtype_eqb (v_type m) Precommit)
+      || match v_value m with
+         | None => true
+         | Some b => lock_covers l (v_round m) b || other_polka_from sp (v_round m) b
+         end) sp.
+
   Definition add_vote (s : state) (m : vote) : state :=
     mkState (m :: soup s) (lock s) (decided s).
 
@@ -167,6 +191,8 @@ Section Protocol.
             else None
         | None => None
         end
+    | SetLock i l =>
+        if correct i && lock_safe (soup s) i l then Some (set_lock s i l) else None
     | Decide i r b =>
         if correct i && qprecommit (soup s) r (Some b)
         then Some (mkState (soup s) (lock s) (upd (decided s) i (Some b)))
